@@ -42,7 +42,7 @@ pub fn judge(case: &Case) -> Verdict {
             let r = guard(|| {
                 let x = apply(w[0], w[1], ord);
                 let again = apply(x, w[1], ord);
-                (x, again, x.strip_multiples_flags(), x.get_card_rank() as u8, x.get_card_suit() as u8, x.get_rank_prime(), x.get_rank_bit(), x.get_suit_bit(), x.get_rank_char(), x.get_suit_char(), x.get_suit_letter(), x.get_rank_flag(), x.get_suit_flag())
+                (x, again, x.strip_multiples_flags(), super::c10::rank_no(x.get_card_rank()), super::c10::suit_no(x.get_card_suit()), x.get_rank_prime(), x.get_rank_bit(), x.get_suit_bit(), x.get_rank_char(), x.get_suit_char(), x.get_suit_letter(), x.get_rank_flag(), x.get_suit_flag())
             });
             let (x, again, stripped, rk, st, prime, rbit, sbit, rc, sc, sl, rflag, sflag) = match r {
                 Err(p) => return Verdict::Violated { class: "panic:marks".into(), expected: format!("{:#x}", exp), observed: format!("panic: {}", p) },
